@@ -15,10 +15,10 @@ import (
 // sync.Pool except "poison", which never re-issues but overwrites released
 // objects so that a use-after-release becomes visible.
 type SimPool struct {
-	policy string
-	rng    *Rng
-	mu     sync.Mutex
-	free   map[string][]interface{}
+	policy               string
+	rng                  *Rng
+	mu                   sync.Mutex
+	free                 map[string][]interface{}
 	Gets, Puts, Reissued int
 }
 
